@@ -415,6 +415,10 @@ def enum_cases(cls):
                 "scalar_function_foreign": lambda tt: __import__("pypika_tortoise.functions", fromlist=["Lower"]).Lower(u.a),
                 "custom_function_own": lambda tt: P.CustomFunction("f", ["x"])(tt.a),
                 "function_over_aggregate": lambda tt: __import__("pypika_tortoise.functions", fromlist=["Coalesce"]).Coalesce(__import__("pypika_tortoise.functions", fromlist=["Sum"]).Sum(tt.a), 0),
+                "arith_over_aggregate": lambda tt: __import__("pypika_tortoise.functions", fromlist=["Count"]).Count(tt.a) + 1,
+                "case_over_aggregate": lambda tt: P.Case().when(__import__("pypika_tortoise.functions", fromlist=["Count"]).Count(tt.a) > 1, 1).else_(0),
+                # an aggregate of a scalar subquery's own is that subquery's business
+                "scalar_subquery_with_aggregate_own": lambda tt: Q.from_(P.Table("w")).select(__import__("pypika_tortoise.functions", fromlist=["Max"]).Max(P.Table("w").a)),
                 "aliased_own": lambda tt: tt.a.as_("x"), "foreign_aliased_table": lambda tt: P.Table("t", alias="z").a,
                 # terms that are neither a field, a string, an arithmetic expression nor a function
                 "criterion_own": lambda tt: tt.a == 1, "criterion_foreign": lambda tt: u.a == 1, "isnull_foreign": lambda tt: u.a.isnull(),
@@ -454,7 +458,7 @@ def enum_cases(cls):
                     exp = None
                     if stmt == "select":
                         exp = "QueryException"
-                    elif an_ in ("function", "function_over_aggregate"):
+                    elif an_ in ("function", "function_over_aggregate", "arith_over_aggregate", "case_over_aggregate"):
                         exp = "QueryException"
                     elif foreign:
                         exp = "QueryException"
